@@ -5,6 +5,7 @@ import (
 	"encoding/json"
 	"errors"
 	"fmt"
+	"io"
 	"net/http"
 	"path/filepath"
 	"sort"
@@ -30,6 +31,7 @@ type ListParams struct {
 	Last       string     `json:"last,omitempty"`
 	Helper     bool       `json:"helper,omitempty"`       // go through registry.Tags / registry.Referrers, which collect all pages
 	FailAtPage int        `json:"fail_at_page,omitempty"` // callback fails at this page (1-based; 0 = never)
+	FailWith   string     `json:"fail_with,omitempty"`    // the callback's error wraps this sentinel error of the library ("" = none)
 	MaxMeta    int64      `json:"max_meta,omitempty"`
 	Pad        int        `json:"pad,omitempty"`
 	FilterAT   string     `json:"filter_at,omitempty"`
@@ -118,6 +120,9 @@ func (p *listProp) Gen(r *Rand, tier string, idx int) any {
 	}
 	if r.Chance(0.2) {
 		lp.FailAtPage = r.Range(1, 3)
+		if r.Bool() {
+			lp.FailWith = pick(r, []string{"not-found", "not-found", "already-exists", "unsupported", "size-exceeds", "eof"})
+		}
 	}
 	if lp.Kind == "ocitags" && len(lp.Items) > 0 && r.Chance(0.5) {
 		lp.Listers = r.Range(1, 2)
@@ -168,6 +173,16 @@ func (p *listProp) Shrink(raw json.RawMessage) []json.RawMessage {
 
 var errCallback = errors.New("callback failure E")
 
+// what a callback may well return: its own error around one of the library's sentinel errors
+// (it fetched a listed item that is gone, say)
+var errCallbackWraps = map[string]error{
+	"not-found":      fmt.Errorf("%w: item: %w", errCallback, errdef.ErrNotFound),
+	"already-exists": fmt.Errorf("%w: item: %w", errCallback, errdef.ErrAlreadyExists),
+	"unsupported":    fmt.Errorf("%w: item: %w", errCallback, errdef.ErrUnsupported),
+	"size-exceeds":   fmt.Errorf("%w: item: %w", errCallback, errdef.ErrSizeExceedsLimit),
+	"eof":            fmt.Errorf("%w: item: %w", errCallback, io.EOF),
+}
+
 func (p *listProp) Run(rc *RunCtx, sc *Scenario) *RunInfo {
 	info := newInfo()
 	var lp ListParams
@@ -196,6 +211,9 @@ func (p *listProp) run(rc *RunCtx, lp *ListParams, info *RunInfo) *Verdict {
 		pages++
 		delivered = append(delivered, append([]string{}, items...))
 		if lp.FailAtPage > 0 && pages == lp.FailAtPage {
+			if w, ok := errCallbackWraps[lp.FailWith]; ok {
+				return w
+			}
 			return errCallback
 		}
 		return nil
